@@ -189,6 +189,9 @@ func c15RenderDoc(d c15Doc, idx int) string {
 		if d.Pad > 0 {
 			fmt.Fprintf(&sb, "    verif/pad: %s\n", c15PadString(d.Pad, idx))
 		}
+		if d.T == "obj" {
+			sb.WriteString(c15Body(d.GVK, d.Name, idx))
+		}
 		if d.T == "meta" {
 			sb.WriteString("  labels:\n    verif/pkg-label: yes-" + d.Name + "\n")
 			switch d.Con {
@@ -202,6 +205,173 @@ func c15RenderDoc(d c15Doc, idx int) string {
 		}
 	}
 	return sb.String()
+}
+
+// c15Body is a realistic spec for the common package object kinds (what the
+// typed decoder and `xpkg build`'s encoder have to carry).
+func c15Body(gvk, name string, idx int) string {
+	g, v, k := c15SplitGVK(gvk)
+	plural := strings.SplitN(name, ".", 2)[0]
+	switch {
+	case g == "apiextensions.k8s.io" && k == "CustomResourceDefinition" && v == "v1":
+		return fmt.Sprintf(`spec:
+  group: example.org
+  names:
+    kind: Thing%d
+    listKind: Thing%dList
+    plural: %s
+    singular: thing%d
+    categories: [crossplane, managed]
+  scope: Cluster
+  versions:
+  - name: v1alpha1
+    served: true
+    storage: true
+    subresources:
+      status: {}
+    additionalPrinterColumns:
+    - jsonPath: .status.conditions[?(@.type=='Ready')].status
+      name: READY
+      type: string
+    schema:
+      openAPIV3Schema:
+        type: object
+        description: "A Thing: with a colon, a # hash and 'quotes'"
+        properties:
+          spec:
+            type: object
+            required: [forProvider]
+            properties:
+              forProvider:
+                type: object
+                x-kubernetes-preserve-unknown-fields: true
+                properties:
+                  size:
+                    type: integer
+                    default: %d
+                    minimum: 0
+                  ratio:
+                    type: number
+                    default: 0.5
+                  port:
+                    x-kubernetes-int-or-string: true
+                    default: "http"
+                  tags:
+                    type: object
+                    additionalProperties:
+                      type: string
+                  mode:
+                    type: string
+                    enum: ["a", "b", "yes", "no", "null"]
+                    default: "no"
+          status:
+            type: object
+            x-kubernetes-preserve-unknown-fields: true
+`, idx, idx, plural, idx, idx)
+	case g == "apiextensions.k8s.io" && k == "CustomResourceDefinition":
+		return fmt.Sprintf(`spec:
+  group: example.org
+  names:
+    kind: Old%d
+    plural: %s
+  scope: Namespaced
+  version: v1beta1
+  validation:
+    openAPIV3Schema:
+      type: object
+      properties:
+        spec:
+          type: object
+          properties:
+            replicas:
+              type: integer
+              default: %d
+`, idx, plural, idx)
+	case g == "apiextensions.crossplane.io" && k == "CompositeResourceDefinition":
+		return fmt.Sprintf(`spec:
+  group: example.org
+  names:
+    kind: XThing%d
+    plural: %s
+  claimNames:
+    kind: Thing%dClaim
+    plural: thing%dclaims
+  connectionSecretKeys: [username, password]
+  defaultCompositionRef:
+    name: default-%d
+  versions:
+  - name: v1
+    served: true
+    referenceable: true
+    schema:
+      openAPIV3Schema:
+        type: object
+        properties:
+          spec:
+            type: object
+            properties:
+              parameters:
+                type: object
+                properties:
+                  storageGB:
+                    type: integer
+                    default: %d
+`, idx, plural, idx, idx, idx, 10+idx)
+	case g == "apiextensions.crossplane.io" && k == "Composition":
+		return fmt.Sprintf(`spec:
+  compositeTypeRef:
+    apiVersion: example.org/v1
+    kind: XThing%d
+  mode: Pipeline
+  pipeline:
+  - step: patch-and-transform
+    functionRef:
+      name: function-patch-and-transform
+    input:
+      apiVersion: pt.fn.crossplane.io/v1beta1
+      kind: Resources
+      resources:
+      - name: bucket
+        base:
+          apiVersion: s3.aws.example.org/v1beta1
+          kind: Bucket
+          spec:
+            forProvider:
+              region: us-east-%d
+              count: %d
+              enabled: true
+              ratio: 1.5
+              nothing: null
+        patches:
+        - type: FromCompositeFieldPath
+          fromFieldPath: spec.parameters.storageGB
+          toFieldPath: spec.forProvider.size
+  - step: ready
+    functionRef:
+      name: function-auto-ready
+`, idx, idx, idx)
+	case g == "admissionregistration.k8s.io" && (k == "MutatingWebhookConfiguration" || k == "ValidatingWebhookConfiguration"):
+		return fmt.Sprintf(`webhooks:
+- name: hook%d.example.org
+  admissionReviewVersions: [v1]
+  sideEffects: None
+  failurePolicy: Fail
+  timeoutSeconds: %d
+  clientConfig:
+    service:
+      name: provider-svc
+      namespace: crossplane-system
+      path: /validate
+      port: 9443
+  rules:
+  - apiGroups: [example.org]
+    apiVersions: ["*"]
+    operations: [CREATE, UPDATE]
+    resources: ["%s"]
+    scope: "*"
+`, idx, 1+idx%30, plural)
+	}
+	return ""
 }
 
 // c15Stream renders the package.yaml stream; starts[i] is the offset of the
@@ -492,6 +662,7 @@ type c15RevW struct {
 	image          c15Image
 	declared       [][2]string // gvk,name of the object documents (when the whole stream parses)
 	declaredUID    []string
+	declaredPad    []string
 	parses         bool
 	gk             schema.GroupKind
 	newRev         func() pkgv1.PackageRevision
@@ -549,6 +720,11 @@ func c15NewWorld(scn *c15Scn) *c15World {
 			case "obj":
 				rw.declared = append(rw.declared, [2]string{d.GVK, d.Name})
 				rw.declaredUID = append(rw.declaredUID, fmt.Sprint(j))
+				pad := ""
+				if d.Pad > 0 {
+					pad = c15PadString(d.Pad, j)
+				}
+				rw.declaredPad = append(rw.declaredPad, pad)
 			}
 		}
 		// the revision object
@@ -931,7 +1107,7 @@ func (w *c15World) runRec(s *c15Step) (c15StepObs, []Mon) {
 					why = "object without metadata"
 					break
 				}
-				if c15GVKString(gvk) != rw.declared[i][0] || a.GetName() != rw.declared[i][1] || a.GetAnnotations()["verif/uid"] != rw.declaredUID[i] {
+				if c15GVKString(gvk) != rw.declared[i][0] || a.GetName() != rw.declared[i][1] || a.GetAnnotations()["verif/uid"] != rw.declaredUID[i] || a.GetAnnotations()["verif/pad"] != rw.declaredPad[i] {
 					why = fmt.Sprintf("object %d is %s %s uid %s, declared %s %s uid %s", i, c15GVKString(gvk), a.GetName(), a.GetAnnotations()["verif/uid"], rw.declared[i][0], rw.declared[i][1], rw.declaredUID[i])
 					break
 				}
@@ -1053,7 +1229,7 @@ func c15GateMonitors(w *c15World, rw *c15RevW, s *c15Step, verifiedBefore bool) 
 
 func c15Run(scn *c15Scn) (c15Obs, []Mon) {
 	w := c15NewWorld(scn)
-	var obs c15Obs
+	obs := c15Obs{Steps: []c15StepObs{}}
 	var mons []Mon
 	for i := range scn.Steps {
 		s := &scn.Steps[i]
